@@ -192,13 +192,17 @@ def cat_case(cat, n, after, res):
 
 # ----------------------------------------------------------------------------- sub-states in a requested order
 BASE3 = [("Coh(.3,.5)", (0,)), ("Sq(.25,.4)", (1,)), ("Th(.3)", (2,))]
+BASE3_GATES = [("D(.3,.4)", (0,)), ("S(.25,.3)", (1,)), ("BS(.5,.3)", (0, 1)), ("D(-.2,pi)", (2,)), ("BS(.5,.3)", (1, 2))]
 EV3 = [None] + [(l, m) for l in ("BS(.5,.3)", "S2(.2,.5)") for m in itertools.permutations(range(3), 2)] + [(l, (m,)) for l in ("D(.3,.4)", "Loss(.6)") for m in range(3)]
 CUT3 = 5
 
 
 def substate_case(rep, ev, res):
     kind = {"gaussian": "gaussian", "bosonic": "bosonic", "fock_mixed": "fock_mixed", "fock_pure": "fock_pure"}[rep]
-    hist = [h for h in BASE3 if not (kind == "fock_pure" and h[0].startswith("Th"))] + ([ev] if ev else [])
+    # fock_pure: gates only, so that the simulator really still holds a state vector (a preparation in a multi-mode
+    # register switches it to a density matrix)
+    base = BASE3_GATES if kind == "fock_pure" else BASE3
+    hist = list(base) + ([ev] if ev and not (kind == "fock_pure" and ev[0].startswith("Loss")) else [])
     case = {"part": "substate", "rep": rep, "ev": None if ev is None else [ev[0], list(ev[1])]}
     b = physics.new_backend(kind, 3, CUT3)
     with warnings.catch_warnings():
@@ -206,6 +210,8 @@ def substate_case(rep, ev, res):
         for lab, modes in hist:
             physics.apply_impl(b, kind, physics.make_op(lab, CUT3), modes)
         full = b.state()
+    if kind == "fock_pure" and not full.is_pure:
+        raise RuntimeError("the gates-only base no longer keeps the Fock simulator in its state-vector mode")
     kw = {} if rep.startswith("fock") else {"cutoff": QC}
     fullrho = fr.FState(3, CUT3, fr.sf_dm_to_flat(full.dm(), 3, CUT3)) if rep.startswith("fock") else None
     tag = [l + str(list(m)) for l, m in hist]
@@ -222,6 +228,16 @@ def substate_case(rep, ev, res):
                 continue
             eff = sorted(S) if rep == "bosonic" else S  # documented: the bosonic simulator sorts the requested modes
             bad = None
+            try:
+                with warnings.catch_warnings():
+                    warnings.simplefilter("ignore")
+                    sub.mean_photon(0, **kw)
+                    sub.quad_expectation(0, 0.4)
+                    if fullrho is not None:
+                        sub.dm()
+            except Exception as e:  # noqa: BLE001
+                res.violation(f"C16|state(modes)|unusable|{rep}", f"backend.state(modes={S}) on {tag} returns a state object whose methods raise {type(e).__name__}: {str(e)[:100]}", dict(case, S=S))
+                continue
             with warnings.catch_warnings():
                 warnings.simplefilter("ignore")
                 for j, m in enumerate(eff):
